@@ -12,6 +12,8 @@ type Term struct {
 	konst  bool
 	iv     int64
 	bv     bool
+	op     string  // "var", "not", "and", "or", "=", "<", "<=", ">", ">=", "+", "-", "*", "ite", ...
+	args   []*Term // operands (structure kept for the cheap domain pre-check)
 }
 
 var (
@@ -34,7 +36,7 @@ func mkInt(i int64) *Term {
 	return &Term{s: s, konst: true, iv: i}
 }
 
-func mkVar(name string, isBool bool) *Term { return &Term{s: name, isBool: isBool} }
+func mkVar(name string, isBool bool) *Term { return &Term{s: name, isBool: isBool, op: "var"} }
 
 func app(isBool bool, op string, args ...*Term) *Term {
 	var sb strings.Builder
@@ -45,15 +47,15 @@ func app(isBool bool, op string, args ...*Term) *Term {
 		sb.WriteString(a.s)
 	}
 	sb.WriteByte(')')
-	return &Term{s: sb.String(), isBool: isBool}
+	return &Term{s: sb.String(), isBool: isBool, op: op, args: args}
 }
 
 func tNot(a *Term) *Term {
 	if a.konst {
 		return mkBool(!a.bv)
 	}
-	if strings.HasPrefix(a.s, "(not ") {
-		return &Term{s: a.s[5 : len(a.s)-1], isBool: true}
+	if a.op == "not" {
+		return a.args[0]
 	}
 	return app(true, "not", a)
 }
